@@ -320,8 +320,9 @@ func cmdCheck(args []string) int {
 		"violations":  violations,
 		"assumptions": asl,
 		"coverage": map[string]interface{}{
-			"obligations":              nObl,
-			"discharged":               discharged + len(known),
+			"obligations":              nObl - len(known) - len(failedNames),
+			"discharged":               discharged,
+			"obligations_generated":    nObl,
 			"discharged_by_solver":     discharged,
 			"known_findings":           known,
 			"failed":                   failedNames,
@@ -339,6 +340,7 @@ func cmdCheck(args []string) int {
 			"unmodelled":               unl,
 			"notes":                    notes,
 			"samples":                  samples,
+			"counting_rule":            "obligations = generated obligations minus those listed as known findings (reported under known_findings) and minus failed ones (reported under failed, with a VIOLATION line each); discharged = obligations for which every query is unsat",
 			"explanation":              "every obligation is one or more SMT queries (one per path through the function's SSA); an obligation counts as discharged only if every query is unsat",
 		},
 	}
